@@ -484,7 +484,10 @@ class Evaluator(object):
     def exec_block(self, stmts, st):
         """-> list of (status, state); status None | 'break' | 'continue'"""
         states = [(None, st)]
-        stmts = self._normalise_block(stmts)
+        if not getattr(self, '_no_renormalise', False):
+            stmts = self._normalise_block(stmts)
+        else:
+            self._no_renormalise = False          # (only the synthetic block itself; nested blocks are normalised as usual)
         for stmt in stmts:
             new = []
             for status, s in states:
@@ -1190,6 +1193,55 @@ class Evaluator(object):
 
     # comprehensions ---------------------------------------------------------
     def _comp(self, node, kind, elts, st):
+        # (a comprehension is one expression: whatever is evaluated inside it - inlined helpers included - is merged, never forked)
+        if kind in ('list', 'gen') and len(elts) == 1 and self._calls_new_helper([elts[0]] + [c for g in node.generators for c in g.ifs], st):
+            # the element goes through a helper that will be evaluated in place: read the comprehension as the accumulating loop it stands for, so that the
+            # helper's branches keep their guards (a comprehension term would merge them)
+            acc = '_cacc%d' % self._depth
+            body = [ast.Expr(value=ast.Call(func=ast.Attribute(value=ast.Name(id=acc, ctx=ast.Load()), attr='append', ctx=ast.Load()), args=[elts[0]], keywords=[]))]
+            for g in reversed(node.generators):
+                for c in reversed(g.ifs):
+                    body = [ast.If(test=c, body=body, orelse=[])]
+                body = [ast.For(target=g.target, iter=g.iter, body=body, orelse=[])]
+            stmts = [ast.Assign(targets=[ast.Name(id=acc, ctx=ast.Store())], value=ast.List(elts=[], ctx=ast.Load()))] + body
+            for b in stmts:
+                ast.copy_location(b, node)
+                ast.fix_missing_locations(b)
+            self._no_renormalise = True
+            try:
+                outs = self.exec_block(stmts, st)
+            finally:
+                self._no_renormalise = False
+            return [(s2.env.get(acc, ('unknown', 'comprehension')), s2) for status, s2 in outs]
+        saved_mode = self.mode
+        self.mode = 'join'
+        try:
+            return self._comp_inner(node, kind, elts, st)
+        finally:
+            self.mode = saved_mode
+
+    def _calls_new_helper(self, nodes, st):
+        if self.inline is None:
+            return False
+        for n0 in nodes:
+            for n in ast.walk(n0):
+                if not isinstance(n, ast.Call):
+                    continue
+                f = None
+                if isinstance(n.func, ast.Name) and n.func.id not in st.env:
+                    f = ('name', n.func.id)
+                elif isinstance(n.func, ast.Attribute) and isinstance(n.func.value, ast.Name) and n.func.value.id in st.env:
+                    f = ('attr', st.env[n.func.value.id], n.func.attr)
+                if f is None:
+                    continue
+                try:
+                    if self.inline(('call', f, (), ()), self) is not None:
+                        return True
+                except Exception:
+                    pass
+        return False
+
+    def _comp_inner(self, node, kind, elts, st):
         self._depth += 1
         depth = self._depth
         s = st.fork()
@@ -1205,14 +1257,25 @@ class Evaluator(object):
                     generators.append(ast.comprehension(target=tgt, iter=it, ifs=(g.ifs if k == len(pairs) - 1 else []), is_async=0))
             else:
                 generators.append(g)
+        def ev1(n, s_):
+            # (the state is threaded: an inlined helper hands back a merged state object, not the one it was given)
+            t_, s2_ = self.ev(n, s_)[0]
+            return t_, s2_
         for gi, g in enumerate(generators):
             lid = ('c', depth, gi)
-            it = self.ev(g.iter, s)[0][0]
+            it, s = ev1(g.iter, s)
             self.bind_loop_target(g.target, it, lid, s, node)
             # bind_loop_target works in place on s for plain targets
-            conds = tuple(self.ev(c, s)[0][0] for c in g.ifs)
-            gens.append((lid, it, conds))
-        es = tuple(self.ev(e, s)[0][0] for e in elts)
+            conds = []
+            for c in g.ifs:
+                ct, s = ev1(c, s)
+                conds.append(ct)
+            gens.append((lid, it, tuple(conds)))
+        es = []
+        for e in elts:
+            et, s = ev1(e, s)
+            es.append(et)
+        es = tuple(es)
         self._depth -= 1
         # events raised inside the comprehension body are kept (flagged by loop context)
         for e in s.events[nev:]:
